@@ -2,6 +2,7 @@ package fsx
 
 import (
 	"fmt"
+	"math"
 	"os"
 
 	"pgregory.net/rapid"
@@ -10,7 +11,7 @@ import (
 func GenCfg(t *rapid.T) Cfg {
 	return Cfg{
 		MaxBytes:  rapid.SampledFrom([]int{0, 0, 1, 17, 64, 100, 150, 300}).Draw(t, "maxBytes"),
-		MaxFiles:  rapid.IntRange(0, 3).Draw(t, "maxFiles"),
+		MaxFiles:  rapid.SampledFrom([]int{0, 1, 2, 3, 0, 1, 2, 3, 1000, math.MaxInt32, math.MaxInt}).Draw(t, "maxFiles"),
 		MaxDurMs:  rapid.SampledFrom([]int{0, 0, 0, 30}).Draw(t, "maxDurMs"),
 		TSOnly:    rapid.Bool().Draw(t, "tsOnly"),
 		Mode:      rapid.SampledFrom([]uint32{0, 0o640, 0o600}).Draw(t, "mode"),
